@@ -143,7 +143,7 @@ fn res<Z: Quantity>(z: Z) -> Value where Z::UnitType: Debug { json!([amt(z.amoun
 def enumerate_definitions(tier):
     defs = []
     n = 0
-    for d in defgen.ref_definitions(tier) + defgen.noref_definitions(tier):
+    for d in defgen.ref_definitions(tier) + defgen.big_ref_definitions(tier) + defgen.noref_definitions(tier):
         defs.append(defgen.uniquify(d, n))
         n += 1
     # derived: each result-type shape declared as A*B, A/B, A*A, AmountT/A over two fresh base definitions
@@ -560,7 +560,9 @@ def run(prop, tier, seed, t0):
         "exhaustive": True,
         "rule": "every definition of the bounded grammar G: with reference unit and n in {1,2,3} further units, scale literals "
                 "from {0.001, 0.5, 1, 1.0, 2.5, 1000, 1000., 1e3} (n <= 2) / {0.5, 1, 1000, 1000.} (n = 3) incl. ties with the "
-                "reference unit and between spellings of one value, ALL (n+1)! attribute permutations (quick: 3 for n = 3), "
+                "reference unit and between spellings of one value, ALL (n+1)! attribute permutations (quick: 3 for n = 3), plus "
+                "definitions with 24 further units full of ties in 3-4 scrambled attribute orders (beyond the size below "
+                "which unstable sorts happen to be stable), "
                 "prefix / doc-string / doc-comment patterns rotated through 4 variants (thorough: full product for n <= 2); "
                 "without reference unit: all sequences of 1..3 identifiers from {Zeta, Alpha, Mid_Word, beta_low} with and "
                 "without docs (single-unit path included); derived: result shapes A*B, A/B, A*A, AmountT/A x 6 result "
